@@ -29,7 +29,7 @@ if not NATIVE:
 PROPERTY = "C18"
 FILES = ["insights/client/apps/ansible/playbook_verifier/__init__.py", "insights/client/apps/ansible/playbook_verifier/serializer.py"]
 
-ALPHA = "ab'\"\\(), \n\t​:[]"
+ALPHA = "ab'\"\\(), \n\t​:[]\x01\r\x1b1x"
 ATOMS = {"int0": 0, "int1": 1, "neg": -5, "true": True, "false": False, "none": None, "float1": 1.0, "float": 0.5}
 
 
@@ -573,9 +573,10 @@ def make_o3():
             en.must_hold((got == "error") == (which != "complete"), "exclusion-rules", case, detail="%s: %s" % (which, got))
             return
         revoked = bool(mode == 2)
-        case = lambda mv: {"mode": "revocation", "revoked": revoked}  # noqa
+        spelling = ["lower", "upper", "mixed"][en.choice("hex_spelling", 3)] if revoked else "lower"
+        case = lambda mv: {"mode": "revocation", "revoked": revoked, "spelling": spelling}  # noqa
         en.note_sample(case)
-        got = _verify_revocation(play, revoked)
+        got = _verify_revocation(play, revoked, spelling)
         en.must_hold((got == "error") == revoked, "exclusion-rules", case, detail="revoked=%s result=%s" % (revoked, got))
     return o3
 
@@ -593,12 +594,13 @@ def _verify_play(play):
         PV.execute_verification = old
 
 
-def _verify_revocation(play, revoked):
+def _verify_revocation(play, revoked, spelling="lower"):
     old = (PV.execute_verification, PV.get_play_revocation_list)
     PV.execute_verification = lambda cleaned, sig: (True, PV.hash_play(PV.serialize_play(cleaned)))
     digest = PV.hash_play(PV.serialize_play(PV.exclude_dynamic_elements(play)))
     other = PV.hash_play(b"something else")
-    PV.get_play_revocation_list = lambda content: [{"name": "a", "hash": other.hex()}] + ([{"name": "b", "hash": digest.hex()}] if revoked else [])
+    spell = {"lower": lambda h: h, "upper": lambda h: h.upper(), "mixed": lambda h: "".join(c.upper() if i % 2 else c for i, c in enumerate(h))}[spelling]
+    PV.get_play_revocation_list = lambda content: [{"name": "a", "hash": other.hex()}] + ([{"name": "b", "hash": spell(digest.hex())}] if revoked else [])
     try:
         try:
             PV.verify(play)
@@ -660,10 +662,13 @@ def _native(case):
         text = SER.PlaybookSerializer.serialize(p)
         try:
             end, sh = Reader(list(map(ord, text)), bool).value(0)
+            if end != len(text):
+                raise ValueError("trailing data")
         except ValueError as ex:
-            return ["serialised text %r does not decode: %s" % (text, ex)]
-        if end != len(text):
-            return ["serialised text %r has trailing data" % text]
+            # the reference reader knows the format as it is; a text it cannot read is a violation only if two different values
+            # really share a serialisation (an added escape alone keeps the digest injective): look for the second value
+            hit = find_collision(p)
+            return ["serialised text %r does not decode (%s) and %s" % (text, ex, hit)] if hit else []
         if not same_shape(shape_of(p), sh, []):
             # exhibit the second play with the same serialisation
             q = _rebuild(sh)
@@ -715,7 +720,7 @@ def _native(case):
             del play["vars"]["insights_signature_exclude"]
         got = _verify_play(play)
         return [] if (got == "error") == (w != "complete") else ["%s: %s" % (w, got)]
-    got = _verify_revocation(play, case["revoked"])
+    got = _verify_revocation(play, case["revoked"], case.get("spelling", "lower"))
     return [] if (got == "error") == case["revoked"] else ["revoked=%s result=%s" % (case["revoked"], got)]
 
 
